@@ -55,7 +55,7 @@ func loadEngine(patterns []string) (*symgo.Engine, error) {
 	}
 	return symgo.Load(symgo.LoadConfig{
 		Dir: repoDir(), Patterns: patterns, Overlay: overlay, Tags: []string{"verif"},
-		Env: []string{"GOPROXY=off", "GOFLAGS="},
+		Env: []string{"GOPROXY=off", "GOFLAGS=", "GOTOOLCHAIN=auto", "GOSUMDB=sum.golang.org"},
 	})
 }
 
